@@ -84,6 +84,8 @@ def catalogue(ns):
         "H[12,24,36]W@0": lambda: hq([12, 24, 36], 0, "W", True), "H[1,2]kW@1": lambda: hq([1, 2], 1, "kW", True),
         "H[6]W@5": lambda: hq([6], 5, "W", True), "H[12,24,36]W@0naive": lambda: hq([12, 24, 36], 0, "W", False),
         "H[-12,0,12]W@0": lambda: hq([-12, 0, 12], 0, "W", True), "H[3,6]B@0": lambda: hq([3, 6], 0, "B", True),
+        # as long as H[12,24,36]W@0 but over other hours (overlapping at one hour / disjoint): same length, different time stamps
+        "H[30,6,18]W@2": lambda: hq([30, 6, 18], 2, "W", True), "H[7,9,40]W@7": lambda: hq([7, 9, 40], 7, "W", True),
         "H[2,4,6]@0": lambda: hq([2, 4, 6], 0, "dimensionless", True), "H[4,4]core@2": lambda: hq([4, 4], 2, "cpu_core", True),
     }
     return ops
